@@ -435,7 +435,9 @@ def check_run(facts: Facts, rec, result, stats: dict, rows=True):
             if not ok:
                 dk = ('loop-phi' if d.is_loop else 'branch-phi') if isinstance(d, PhiDef) else 'direct'
                 sk = type(d.site).__name__
-                out.append((f'reach/{dk}@{sk}/writer-{wk}',
+                # a loop variable that rebinds a name is one root cause however the use resolves
+                bucket = 'reach/unlisted-writer:ForStmt' if wk == 'ForStmt' else f'reach/unlisted-writer:{wk}/{dk}@{sk}'
+                out.append((bucket,
                             sorted({type(a.site).__name__ for a in allowed}),
                             wk if widx < 0 else nodes[widx].format().splitlines()[0][:60], var.format()))
 
